@@ -214,11 +214,18 @@ func runRoundTrip(cs Case, content []byte, ch *choice.Chooser) verdict {
 			dstw = dv.w
 			return dv.data, func() (bool, string) {
 				got := dv.get()
-				return bytes.Equal(got, content), fmt.Sprintf("source bytes %s, consumed bytes %s", q(content), q(got))
+				if bytes.Equal(got, content) {
+					return true, ""
+				}
+				return false, fmt.Sprintf("source bytes %s, consumed bytes %s", q(content), q(got))
 			}
 		}
 	} else {
 		val := findValue(cs.Value)
+		if cs.Value == "big-string" {
+			// size ladder: one string value holding the generated content
+			val = &rtValue{name: cs.Value, val: Leaf{S: string(content), N: int64(len(content))}}
+		}
 		if val == nil {
 			return verdict{class: "harness", what: "unknown value " + cs.Value}
 		}
@@ -231,7 +238,13 @@ func runRoundTrip(cs Case, content []byte, ch *choice.Chooser) verdict {
 			p := reflect.New(reflect.TypeOf(val.val))
 			return p.Interface(), func() (bool, string) {
 				got := p.Elem().Interface()
-				return sameValue(reflect.ValueOf(got), reflect.ValueOf(val.val)), fmt.Sprintf("produced %#v, consumed %#v", deref(val.val), deref(got))
+				if sameValue(reflect.ValueOf(got), reflect.ValueOf(val.val)) {
+					return true, ""
+				}
+				if l, ok := got.(Leaf); ok && cs.Value == "big-string" {
+					return false, fmt.Sprintf("produced a string of %s, consumed %s", q(content), q([]byte(l.S)))
+				}
+				return false, fmt.Sprintf("produced %#v, consumed %#v", deref(val.val), deref(got))
 			}
 		}
 	}
@@ -264,7 +277,7 @@ func runRoundTrip(cs Case, content []byte, ch *choice.Chooser) verdict {
 		return v
 	}
 	wire := append([]byte(nil), w.Buf...)
-	rd := &sreader{Name: "r", Data: wire, C: ch, Errs: cs.Errs, ErrVals: cs.ErrValues, Zero: cs.Zero, CloseFaults: true}
+	rd := &sreader{Name: "r", Data: wire, C: ch, Max: cs.Chunk, Errs: cs.Errs, ErrVals: cs.ErrValues, Zero: cs.Zero, CloseFaults: true}
 	data, equal := newDest()
 	err, pan = call(func() error { return cons.Consume(rd, data) })
 	if pan != "" {
